@@ -218,16 +218,16 @@ def check(tier: str) -> Result:
                                       ("reward", mk("call", ip["reward_aggregator"], (mk("attr", ts, "reward"),), ())),
                                       ("discount", mk("call", ip["discount_aggregator"], (mk("attr", ts, "discount"),), ())),
                                       ("observation", mk("attr", ts, "observation")), ("extras", mk("attr", ts, "extras"))))
-        exp = mk("tuple", (mk("proj", ic, 0), exp_ts))
-        ok = r is exp
-        why = "as specified"
-        if not ok and r.kind == "tuple" and len(r.args[0]) == 2 and r.args[0][1].kind == "construct":
-            got = dict(r.args[0][1].args[1])
+        ok = False
+        why = txt(r, 5, 200)
+        if r.kind == "tuple" and len(r.args[0]) == 2:
+            v_ = VFG(tree, Model(tree))
             want = dict(exp_ts.args[1])
+            got = {k: uncopy(v_.mk_attr(r.args[0][1], k)) for k in want}
             bad = {k: txt(got.get(k), 4, 70) for k in want if got.get(k) is not want[k]}
-            why = f"fields differing from the specification: {bad}; state passed through: {r.args[0][0] is mk('proj', ic, 0)}"
-        elif not ok:
-            why = txt(r, 5, 200)
+            state_ok = r.args[0][0] is mk("proj", ic, 0)
+            ok = not bad and state_ok
+            why = "as specified (field by field)" if ok else f"fields differing from the specification: {bad}; state passed through: {state_ok}"
         res.add("C15.R3", f.loc(), f"wrappers.MultiToSingleWrapper.{meth}",
                 "returns (inner state, TimeStep(step_type, observation, extras unchanged; reward_aggregator(reward); discount_aggregator(discount)))", ok, why)
     # ================================================================== R4 conversions
